@@ -222,6 +222,7 @@ Proof.
   - rewrite ostr_eqb_eq. split; intro E; [rewrite E; reflexivity | injection E; auto].
   - rewrite ostr_eqb_eq. split; intro E; [rewrite E; reflexivity | injection E; auto].
   - rewrite ostr_eqb_eq. split; intro E; [rewrite E; reflexivity | injection E; auto].
+  - rewrite String.eqb_eq. split; intro E; [rewrite E; reflexivity | injection E; auto].
 Qed.
 
 Lemma teq_on_spec sa ta a b :
@@ -342,14 +343,15 @@ Proof.
 Qed.
 
 (* ---- the converse: an attribute that reaches the hash but is not compared gives a witness ---- *)
-Definition t0 : table := {| tname := "t"; tschema := None; talias := None; tfor := None; tportion := None |}.
+Definition t0 : table := {| tname := "t"; tschema := None; talias := None; tfor := None; tportion := None; tqcls := "Query" |}.
 Definition t_with (x : tattr) : table :=
   match x with
-  | TName => {| tname := "u"; tschema := None; talias := None; tfor := None; tportion := None |}
-  | TSchema => {| tname := "t"; tschema := Some (SRoot "s" false); talias := None; tfor := None; tportion := None |}
-  | TAlias => {| tname := "t"; tschema := None; talias := Some "a"; tfor := None; tportion := None |}
-  | TFor => {| tname := "t"; tschema := None; talias := None; tfor := Some "f"; tportion := None |}
-  | TPortion => {| tname := "t"; tschema := None; talias := None; tfor := None; tportion := Some "p" |}
+  | TName => {| tname := "u"; tschema := None; talias := None; tfor := None; tportion := None; tqcls := "Query" |}
+  | TSchema => {| tname := "t"; tschema := Some (SRoot "s" false); talias := None; tfor := None; tportion := None; tqcls := "Query" |}
+  | TAlias => {| tname := "t"; tschema := None; talias := Some "a"; tfor := None; tportion := None; tqcls := "Query" |}
+  | TFor => {| tname := "t"; tschema := None; talias := None; tfor := Some "f"; tportion := None; tqcls := "Query" |}
+  | TPortion => {| tname := "t"; tschema := None; talias := None; tfor := None; tportion := Some "p"; tqcls := "Query" |}
+  | TQcls => {| tname := "t"; tschema := None; talias := None; tfor := None; tportion := None; tqcls := "MySQLQuery" |}
   end.
 
 Lemma t_with_eq sa ta x : tmem x ta = false -> teq_on sa ta t0 (t_with x) = true.
@@ -369,7 +371,7 @@ Proof.
   apply (map_neq_In _ _ tk x Hx). apply t_with_val.
 Qed.
 
-Definition ts (s : schema) : table := {| tname := "t"; tschema := Some s; talias := None; tfor := None; tportion := None |}.
+Definition ts (s : schema) : table := {| tname := "t"; tschema := Some s; talias := None; tfor := None; tportion := None; tqcls := "Query" |}.
 
 Lemma table_schema_witness sa ta sk tk : In TSchema tk -> ssub sk sa = false ->
   exists a b, teq_on sa ta a b = true /\ map (fun x => tval sk x a) tk <> map (fun x => tval sk x b) tk.
@@ -579,24 +581,43 @@ Theorem route_attr d s :
   /\ option_map chain (Some (SSub s false (SRoot d true))) = option_map chain (Some (chain_from (SRoot d false) [s])).
 Proof. split; reflexivity. Qed.
 
-(* objects with the same name, schema chain, alias and temporal clause, however built *)
+(* objects with the same name, schema chain, alias and temporal clause, however built and whatever Query class
+   they are bound to *)
 Definition same_identity (a b : table) : Prop :=
   tname a = tname b /\ ochain (tschema a) = ochain (tschema b) /\ talias a = talias b
   /\ tfor a = tfor b /\ tportion a = tportion b.
 
-Lemma tval_same sa x a b : smem SKind sa = false -> same_identity a b -> tval sa x a = tval sa x b.
+Lemma tval_same sa x a b : smem SKind sa = false -> x <> TQcls -> same_identity a b -> tval sa x a = tval sa x b.
 Proof.
-  intros HK [E1 [E2 [E3 [E4 E5]]]]. destruct x; simpl; try congruence.
+  intros HK NQ [E1 [E2 [E3 [E4 E5]]]]. destruct x; simpl; try congruence.
   unfold ochain in E2. destruct (tschema a) as [p|], (tschema b) as [q|]; simpl in *; try discriminate; try reflexivity.
   injection E2 as E2. do 2 f_equal. apply seq_on_spec. apply chain_seq_on; assumption.
 Qed.
 
 Theorem route_independent c : smem SKind (c_sne c) = false -> smem SKind (c_tkey_s c) = false ->
+  tmem TQcls (c_teq c) = false -> tmem TQcls (c_tkey c) = false ->
   forall a b, same_identity a b -> ieq c (ITable a) (ITable b) = true /\ ikey c (ITable a) = ikey c (ITable b).
 Proof.
-  intros K1 K2 a b S. split.
-  - simpl. apply teq_on_spec. apply map_eq_of_all. intros x _. apply tval_same; assumption.
-  - unfold ikey. simpl. f_equal. apply map_eq_of_all. intros x _. apply tval_same; assumption.
+  intros K1 K2 Q1 Q2 a b S.
+  assert (N : forall l x, tmem TQcls l = false -> In x l -> x <> TQcls).
+  { intros l x Hl Hx E. subst. apply tmem_In in Hx. congruence. }
+  split.
+  - simpl. apply teq_on_spec. apply map_eq_of_all. intros x Hx. apply tval_same; eauto.
+  - unfold ikey. simpl. f_equal. apply map_eq_of_all. intros x Hx. apply tval_same; eauto.
+Qed.
+
+(* the same, for any configuration, when the two tables are bound to the same Query class *)
+Theorem route_independent_q c : smem SKind (c_sne c) = false -> smem SKind (c_tkey_s c) = false ->
+  forall a b, same_identity a b -> tqcls a = tqcls b ->
+  ieq c (ITable a) (ITable b) = true /\ ikey c (ITable a) = ikey c (ITable b).
+Proof.
+  intros K1 K2 a b S Q.
+  assert (V : forall sa x, smem SKind sa = false -> tval sa x a = tval sa x b).
+  { intros sa x HK. destruct x; try (apply tval_same; [assumption | discriminate | assumption]).
+    simpl. rewrite Q. reflexivity. }
+  split.
+  - simpl. apply teq_on_spec. apply map_eq_of_all. intros x _. apply V. assumption.
+  - unfold ikey. simpl. f_equal. apply map_eq_of_all. intros x _. apply V. assumption.
 Qed.
 
 (* ------------------------------------------------------------------------------------------ *)
